@@ -36,10 +36,11 @@ class computechi2(object):
         #
         # self.bvec = bvec
         self.sqivar = sqivar
-        self.amatrix = amatrix
         if len(amatrix.shape) > 1:
+            self.amatrix = amatrix
             self.nstar = amatrix.shape[1]
         else:
+            self.amatrix = amatrix.reshape(amatrix.size, 1)
             self.nstar = 1
         self.bvec = bvec * sqivar
         self.mmatrix = self.amatrix * np.tile(sqivar, self.nstar).reshape(self.nstar, bvec.size).transpose()
